@@ -25,7 +25,7 @@ FAULT_KINDS = (
     "unknown_portfolio", "dup_portfolio", "bad_currency", "neg_initial_funds", "bad_fee_model",
     "pf_early_dt", "pf_direct_bad_amount", "neg_mark", "zero_mark", "clock_regress",
     "clock_regress_pending", "closed_tick", "dup_tick", "neg_cash_buy", "flip_through_zero",
-    "close_and_reopen",
+    "close_and_reopen", "unpriceable_order",
 )
 
 # which refused-request kinds the generator may emit as explicit fault ops
@@ -33,7 +33,7 @@ REFUSED_OPS = (
     "neg_amount", "overdraw_account", "overdraw_portfolio", "overfund_portfolio",
     "unknown_portfolio", "dup_portfolio", "bad_currency", "neg_initial_funds", "bad_fee_model",
     "pf_early_dt", "pf_direct_bad_amount", "neg_mark", "zero_mark", "clock_regress",
-    "clock_regress_pending",
+    "clock_regress_pending", "unpriceable_order",
 )
 
 
@@ -210,6 +210,24 @@ def generate(rng, focus, tier="quick"):
                     "asset": rng.choice(assets),
                     "amt": (-rng.choice([0.01, 1.0, 100.0]) if kind == "neg_mark" else 0.0),
                     "fault": kind}
+        if kind == "unpriceable_order":
+            # an order whose asset has no quote at the next in-hours update: update() raises mid-batch;
+            # the run carries on (what became of the batch is unspecified; later fills are judged again)
+            a = rng.choice(assets)
+            seq = []
+            if len(assets) > 1 and rng.random() < 0.7:
+                other = rng.choice([x for x in assets if x != a])
+                seq.append({"k": "order", "pid": pid, "asset": other, "qty": {"v": _qty(rng)}})
+            seq.append({"k": "dropquote", "asset": a, "fault": kind})
+            seq.append({"k": "order", "pid": pid, "asset": a, "qty": {"v": _qty(rng)}})
+            t = timegen.next_inhours(rng, sh["now"])
+            sh["now"] = t
+            seq.append({"k": "tick", "t": t, "why": "unpriceable"})
+            b, k_ = _quote(rng, sh["quotes"][a])
+            seq.append({"k": "quote", "asset": a, "bid": b, "ask": k_})
+            for o in seq[:-1]:
+                emit(o)
+            return seq[-1]
         if kind in ("clock_regress", "clock_regress_pending"):
             return {"k": "tick", "back": rng.choice([1, 60, 3600, 7 * 3600, DAY, 3 * DAY, 30 * DAY]),
                     "stay": rng.random() < 0.5, "fault": kind}
@@ -752,6 +770,11 @@ class Exec(object):
             ctx.violate("C04", "fill_on_submit", {"txns": [(c["asset"], c["qty"]) for c in s.captured]})
         return False
 
+    def op_dropquote(self, op):
+        self.s.qb.drop(op["asset"])
+        self.ctx.event("dropquote", op["asset"])
+        return False
+
     def op_quote(self, op):
         self.s.qb.set(op["asset"], op["bid"], op["ask"])
         self.ctx.event("quote", op["asset"], float(op["bid"]), float(op["ask"]))
@@ -829,6 +852,9 @@ class Exec(object):
             ctx.probe("tick_at_205959")
         if weekday(t) > 4 and OPEN_S <= tod < CLOSE_S:
             ctx.probe("weekend_tick_in_weekday_hours")
+        if open_ and any(s.qb.bid_ask(o["asset"])[0] != s.qb.bid_ask(o["asset"])[0]
+                         for p in m.pfs.values() for o in p.pending):
+            return self._unpriceable_tick(t)
         pend_before = {pid: list(m.pfs[pid].pending) for pid in m.order}
         if pend_before and any(pend_before.values()):
             ctx.probe("tick_with_pending_open" if open_ else "tick_with_pending_closed")
@@ -901,6 +927,34 @@ class Exec(object):
         for pid in m.order:
             if open_:
                 m.pfs[pid].pending = []
+        return False
+
+    def _unpriceable_tick(self, t):
+        """In-hours update while a pending order's asset has no quote (outside C04's domain).
+
+        The update raises part-way through the batch; which orders were filled first and what becomes
+        of the rest is not specified by any property.  The fills that did happen are booked (and judged
+        by C05/C01/C02 like any other), the pending model is re-synchronised from the broker's queues,
+        and the run carries on -- later fills must again satisfy every property.
+        """
+        s, m, ctx = self.s, self.m, self.ctx
+        ctx.fault("unpriceable_order")
+        marks = [(pid, a, s.qb.mid(a)) for pid in m.order for a in m.pfs[pid].pos]
+        tstamp = ts(t)
+        ok, exc = self._call(s.broker.update, tstamp)
+        ctx.event("tick_unpriceable", t, "accepted" if ok else type(exc).__name__, len(s.captured))
+        m.now = t
+        m.last_tick = t
+        for pid, a, mid in marks:
+            m.pfs[pid].pos[a].last = mid
+        for c in s.captured:
+            self._apply_fill(c, t, tstamp)
+        for pid in m.order:
+            left = set(x[0] for x in _pending_ids(s, pid))
+            for o in m.pfs[pid].pending:
+                if o["oid"] not in left and self.orders[o["oid"]]["fills"] == 0:
+                    ctx.probe("order_dropped_by_failed_update(unspecified)")
+            m.pfs[pid].pending = [o for o in m.pfs[pid].pending if o["oid"] in left]
         return False
 
     def _apply_fill(self, c, t, tstamp):
@@ -1301,6 +1355,9 @@ class Exec(object):
                                   float(r["total_pnl"]), float(r["market_value"]))
                 if mv != mv:
                     ctx.probe("c03_out_of_domain_nan")
+                    sums["total_pnl"] = float("nan")   # the portfolio totals are out of domain too
+                    sums["realised_pnl"] = float("nan")
+                    sums["unrealised_pnl"] = float("nan")
                     continue
                 gross = sum(abs(fp * fq) for fp, fq, fc in pos.fills)
                 comm = sum(frac(fc) for fp, fq, fc in pos.fills)
